@@ -309,7 +309,7 @@ fn gen_c06(ctx: &GenCtx, i: u64) -> Option<Run> {
             for (n, l) in lens.iter().enumerate() {
                 let a = if *l == 0 { if n % 2 == 0 { None } else { Some(String::new()) } } else { Some(alnum!(r, *l)) };
                 let out = rb.msg();
-                rb.push(Op::CoreIssue { proto, key, nonce_hex: nonce.clone(), payload: msg.clone(), footer: footer.clone(), assertion: a.clone(), out, order: 0 });
+                rb.push(Op::CoreIssue { proto, key, nonce_hex: nonce.clone(), payload: msg.clone(), footer: footer.clone(), assertion: a.clone(), out, order: 0, rebuild: false });
                 // and it verifies with the same assertion
                 let v = rb.verifier(VerifierSpec { proto, layer: Layer::Core, key, footer: footer.clone(), assertion: a, default_validators: false, expect: vec![], expect_via_extend: false, validators: vec![], hash_seed: 0 });
                 rb.deliver(out, v, now);
